@@ -10,6 +10,7 @@ import (
 	"crypto/ed25519"
 	"encoding/hex"
 	"encoding/json"
+	"math"
 	"math/big"
 	"sort"
 	"strconv"
@@ -328,10 +329,11 @@ func classOfWrongAccept(v verdict, replayOfAccepted bool, replayOther bool) stri
 			parts = append(parts, "malformed-length-entry-counted")
 		case moreThanTwoThirds(t.perEntryLax, t.total):
 			parts = append(parts, "duplicate-and-malformed-length-entries-counted")
+		case t.total.Cmp(big.NewInt(math.MaxInt64/2)) > 0 && wrappedThresholdPasses(t.perEntryLax, t.total):
+			// 2*total does not fit into int64
+			parts = append(parts, "two-thirds-threshold-overflow-accepts-undersigned")
 		case new(big.Int).Mul(t.strict, big.NewInt(3)).Cmp(new(big.Int).Mul(t.total, big.NewInt(2))) == 0 && t.total.Sign() > 0:
 			parts = append(parts, "exactly-two-thirds-accepted")
-		case wrappedThresholdPasses(t.perEntryLax, t.total):
-			parts = append(parts, "two-thirds-threshold-overflow-accepts-undersigned")
 		default:
 			parts = append(parts, "undersigned-request-accepted")
 		}
@@ -371,4 +373,20 @@ func classOfWrongAccept(v verdict, replayOfAccepted bool, replayOther bool) stri
 		parts = append(parts, "refusable-request-accepted:"+r)
 	}
 	return strings.Join(parts, "+")
+}
+
+// strictTallyPasses tells whether the signature list of a stored request still
+// holds > 2/3 of the given set (used by the generator to keep replays from
+// mixing two refusal reasons).
+func strictTallyPasses(inforce map[string]int64, txdata []byte) bool {
+	data := txdata
+	if len(data) > 4 {
+		data = data[4:]
+	}
+	var cmd oCmd
+	if json.Unmarshal(data, &cmd) != nil {
+		return false
+	}
+	t := tally(inforce, cmd.Msg, cmd.SInfos)
+	return moreThanTwoThirds(t.strict, t.total)
 }
